@@ -53,7 +53,7 @@ Section Inv.
   Inductive step : world -> world -> Prop :=
   (* rename(path -> cache/<t>) where t came out of the mtime shortcut with a sound remembered state *)
   | SBackup w p assumed t w' :
-      state_ok w assumed -> get_file_ticket hc w p assumed = Some t ->
+      state_ok w assumed -> get_file_ticket teqb hc w p assumed = Some t ->
       back_up teqb w t p = Some w' -> step w w'
   (* rename(cache/<t> -> path) *)
   | SRestore w t p w' :
@@ -75,7 +75,7 @@ Section Inv.
   (* ruler's own steps (everything except what commands / the user do) *)
   Inductive own_step : world -> world -> Prop :=
   | OBackup w p assumed t w' :
-      state_ok w assumed -> get_file_ticket hc w p assumed = Some t ->
+      state_ok w assumed -> get_file_ticket teqb hc w p assumed = Some t ->
       back_up teqb w t p = Some w' -> own_step w w'
   | ORestore w t p w' :
       fget w p = None ->                      (* ruler restores only into a path it found or made empty *)
